@@ -23,6 +23,10 @@ pub fn norm_loc(loc: &str) -> String {
     if let Some(r) = loc.strip_prefix("/repo/") {
         return r.to_string();
     }
+    // a scratch worktree of /repo (seeded evaluation): same normal form
+    if let Some(k) = loc.find("/crates/cairo-lang-") {
+        return loc[k + 1..].to_string();
+    }
     if let Some(k) = loc.find("/registry/src/") {
         let rest = &loc[k + "/registry/src/".len()..];
         if let Some(j) = rest.find('/') {
